@@ -99,8 +99,19 @@ def run(prog, chk):
                         "`%s` advances by %s inside the loop but `%s` (compared against the required length in that loop) is not reduced by the same amount: "
                         "the truncation check then uses the original length and bytes behind the range are read" % (P, amt, L))
         # (2) offset reads covered by length facts
+        def base_is_param(bi, pos_):
+            """the subscripted pointer is the parameter itself, or a local that still names its current value (`seq = (const uchar*)ch`)"""
+            if q.no_casts(f.r(bi)) == P:
+                return True
+            bn = f.nodes[f.strip(bi)]
+            while bn["k"] in ("CStyleCastExpr", "ImplicitCastExpr", "ParenExpr") and bn["c"]:
+                bn = f.nodes[f.strip(bn["c"][0])] if f.strip(bn["c"][0]) != bn["i"] else f.nodes[bn["c"][0]]
+            if bn["k"] == "DeclRefExpr" and bn["ref"].get("dk") == "local" and pos_ is not None:
+                ini = fin._stable_init(f, bn["ref"]["id"], pos_)
+                return ini is not None and q.no_casts(f.r(ini)) == P
+            return False
         for i, n in enumerate(f.nodes):
-            if n["k"] != "ArraySubscriptExpr" or q.no_casts(f.r(n["c"][0])) != P:
+            if n["k"] != "ArraySubscriptExpr" or not base_is_param(n["c"][0], f.node_pos(i)):
                 continue
             k = fin.eval_expr(f, n["c"][1], {})
             if k is None:
@@ -111,18 +122,15 @@ def run(prog, chk):
             for a in atoms:
                 if a[0] == "case":
                     cases[q.no_casts(f.r(a[1]))] = a[2]
-            for a in atoms:
-                if a[0] == "case":
-                    continue
-                t = fin.key(f, a[0])
-                m = re.match(r"^\(%s < (\w+)\)$" % L, t)
-                if m and not a[1]:
-                    v = cases.get(m.group(1))
-                    if v is None and m.group(1).isdigit():
-                        v = int(m.group(1))
+            # what the dominating tests say about the length, whatever they are spelled like
+            for lo_, op_, hi_ in fin.relations(f, f.node_pos(i), render=lambda x: q.no_casts(f.r(x))):
+                if hi_ == L and op_ in ("<=", "<"):
+                    v = cases.get(lo_)
+                    if v is None and lo_.isdigit():
+                        v = int(lo_)
                     if v is not None:
-                        bound = max(bound, v)
-                if t == "(%s == 0)" % L and not a[1]:
+                        bound = max(bound, v + (1 if op_ == "<" else 0))
+                if (lo_, op_, hi_) in ((L, "!=", "0"), ("0", "!=", L)):
                     bound = max(bound, 1)
             # inside the loop `ch < end` also gives one byte
             if bound >= k + 1:
